@@ -151,12 +151,13 @@ def run_case(case):
         border = np.stack([L.points(2, nv, salt=f) for f in range(4)], axis=-1)
     batch = L.make_batch(kind, pts, border=border, obs=obs if any_obs else None)
     # weights
-    wd = 1.3 if case["wdyn"] == "scalar" else reorder({k: 0.5 + 0.4 * i for i, k in enumerate(eqkeys)})
+    # per-key dictionaries may switch one entry off with an exact 0
+    wd = 1.3 if case["wdyn"] == "scalar" else reorder({k: (0.0 if (i == len(eqkeys) - 1 and len(eqkeys) >= 2) else 0.5 + 0.4 * i) for i, k in enumerate(eqkeys)})
     def wc(term, j0):
         if case["wcon"] == "scalar":
             return 0.6 + 0.1 * j0
         if case["wcon"] == "dict":
-            return reorder({n: 0.3 + 0.25 * i + 0.1 * j0 for i, n in enumerate(names)})
+            return reorder({n: (0 if (i == 1 and term == "obs") else 0.3 + 0.25 * i + 0.1 * j0) for i, n in enumerate(names)})
         return None
     def form(w):
         if case.get("wform") != "array" or w is None:
